@@ -38,7 +38,7 @@ def check(ctx):
 
 
 def replay(ctx, data):
-    return http_common.replay(ctx, data, MODULES)
+    return http_common.replay(ctx, data, MODULES, TABLES)
 
 
 MANIFEST = {
